@@ -653,7 +653,7 @@ def run_outlets_case(case, res):
 
     prog = case["prog"]
     for mode in ("single", "five"):
-        sim = mk(mode)
+        sim = mk(mode, icache=case.get("icache"))
         im = sim.state.instruction_memory
         objs = {}
         # (a) write_instruction one by one, listing requested in between, a few instructions patched in place
@@ -698,11 +698,35 @@ def run_outlets_case(case, res):
         set_regs(sim, case["regs"])
         preload_mem(sim, case["mem"])
         ids = ("InstructionMemoryInstrText", "InstructionReadAddressText") if mode == "five" else ("instr-mem-instr-text", "instr-mem-read-addr-text")
+
+        def view_ok(when):
+            vals = dict((i_, v) for (i_, _k, v) in (sim.get_riscv_five_stage_svg_update_values() if mode == "five" else sim.get_riscv_single_stage_svg_update_values()))
+            txt, a = vals.get(ids[0]), vals.get(ids[1])
+            if txt and a not in (None, ""):
+                res.count("pipeline_view_texts_checked")
+                if lst.get(int(a)) != txt:
+                    res.violation("C14", "pipeline-view-text", "%s mode %s: pipeline view shows %r for address %s, listing says %r" % (mode, when, txt, a, lst.get(int(a))), case)
+                    return False
+            if case.get("icache"):
+                # the instruction-cache table pairs every cached instruction text with an address
+                for set_ in sim.get_instruction_cache_entries().sets:
+                    for blk in set_.blocks:
+                        for (a_, t_) in blk.address_value_list:
+                            if a_ and t_ and str(t_).strip():
+                                res.count("icache_table_texts_checked")
+                                if lst.get(int(a_, 16)) != str(t_):
+                                    res.violation("C14", "cache-table-text", "%s mode %s: the instruction-cache table shows %r at address 0x%s, the instruction stored there prints as %r" % (mode, when, t_, a_, lst.get(int(a_, 16))), case)
+                                    return False
+            return True
+
         k = 0
         while not sim.is_done() and k < 120:
             try:
                 sim.step()
             except InstructionExecutionException as e:
+                res.count("views_read_after_a_failed_step")
+                if not view_ok("after the failed step %d" % (k + 1)):
+                    return
                 res.count("error_messages_checked")
                 txt, a = e.instruction_repr, e.address
                 if not txt or a not in lst or lst[a] != txt:
@@ -724,13 +748,8 @@ def run_outlets_case(case, res):
             except Exception:
                 break
             k += 1
-            vals = dict((i_, v) for (i_, _k, v) in (sim.get_riscv_five_stage_svg_update_values() if mode == "five" else sim.get_riscv_single_stage_svg_update_values()))
-            txt, a = vals.get(ids[0]), vals.get(ids[1])
-            if txt and a not in (None, ""):
-                res.count("pipeline_view_texts_checked")
-                if lst.get(int(a)) != txt:
-                    res.violation("C14", "pipeline-view-text", "%s mode step %d: pipeline view shows %r for address %s, listing says %r" % (mode, k, txt, a, lst.get(int(a))), case)
-                    return
+            if not view_ok("step %d" % k):
+                return
     res.nontrivial(h64(case))
 
 
@@ -843,6 +862,8 @@ def run_shard(spec, res):
                 prog = prog + [{"m": "addi", "rd": 17, "rs1": 0, "imm": 7}, {"m": "ecall"}]  # failing ecall as the last instruction
             patches = [(rng.randrange(len(prog)), G._alu(rng, [1, 2, 3])) for _ in range(rng.choice([0, 1, 2]))] if prog else []
             case = {"kind": "outlets", "prog": prog, "regs": regs, "mem": G.init_mem(rng), "patches": patches}
+            if rng.random() < 0.4:
+                case["icache"] = {"ib": rng.choice([0, 1]), "bb": rng.choice([1, 2, 2]), "assoc": rng.choice([1, 2]), "policy": "lru", "pen": 0}
             if rng.random() < 0.5:
                 case["write_order"] = rng.sample(range(len(prog)), len(prog))
             guarded(run_case, prop, case, res)
